@@ -59,7 +59,7 @@ def run_case(case):
     tag = 'order=%d nz=%d ntheta=%d theta-spline=%s iota=%s' % (order, nz, nq, case['space'], iota)
     c = Constants()
     tp = 2 * math.pi
-    dz = 0.5
+    dz = 0.5 if nz % 2 else 0.37          # a dyadic and a non-dyadic cell size
     c.R0 = nz * dz / tp
     R0 = c.R0
     if iota == 'profile':
